@@ -7,7 +7,7 @@ from ..core import hx
 PROOF_MODULE = "Nlmodel.Proofs.C17"
 PROOF_FILES = ["Nlmodel/Proofs/C17.lean", "Nlmodel/Model/Session.lean", "Nlmodel/Model/Resolve.lean", "Nlmodel/Model/VM.lean"]
 THEOREM_FILE = PROOF_FILES[0]
-LEVEL_TEXT = ("Lean theorems on the explicit-state session model (compiler symbol table + machine globals carried from line to line): a line that fails to parse or to compile leaves the session exactly as it was; every run starts from an empty stack and no frames and sees exactly the globals the earlier lines left; a line failing at run time leaves the symbol table of that line and the globals with the assignments it completed; compiling lines one after the other on the retained symbol table resolves every name (binder and slot) exactly as compiling their concatenation as one program. The statement 'the result of line n equals the result of the single program l1..ln' is decided by the correspondence (partial as a theorem: it needs the C01 simulation generalised over the carried state). Tied to the code by successive real VM::run calls on one (Compiler, VM) pair vs the session model, and by the direct oracle: session result vs real eval of the concatenation of the successful lines.")
+LEVEL_TEXT = ("Lean theorems on the explicit-state session model (compiler symbol table + machine globals carried from line to line): a line that fails to parse or to compile leaves the session exactly as it was; every run starts from an empty stack and no frames and sees exactly the globals the earlier lines left; a line failing at run time leaves the symbol table of that line and the globals with the assignments it completed; compiling lines one after the other on the retained symbol table resolves every name (binder and slot) exactly as compiling their concatenation as one program. The statement 'the result of line n equals the result of the single program l1..ln' is decided by the correspondence (partial as a theorem: it needs the C01 simulation generalised over the carried state). Tied to the code by successive real VM::run calls on one (Compiler, VM) pair vs the session model, and by the direct oracle: session result vs real eval of the concatenation of the successful lines. A SESSION REFINES THE DEFINITIONAL SEMANTICS LINE BY LINE (C17_line_refines_semantics, C17_session_refines_semantics; Lemmas/SimCtlSession.lean): in the control-flow fragment (global scalar variables, stel, assignment, operators, als/zolang as statements and values, stop/volgende, nested blocks) a session of ANY length answers every line with the value the definitional semantics gives when run line by line on the carried state - earlier lines' names resolved on the retained symbol table to the slots they got, their values found in the retained machine's globals; invariant Sim.SInv (symbol table / globals / definitional state), true of the empty session and re-established by every successful line.")
 LEVEL_NOTE = ("Trusted: Lean kernel. Within U8 of DESIGN 4.3: sessions whose globals hold only scalars and whose functions are called on the line that defines them (heap values and function values across lines are finding K2; declared-but-never-assigned names after a run-time failure are finding K1).")
 TECHNIQUE = "Lean 4 proof (explicit-state session model) + session-vs-model and session-vs-concatenation differential with failure injection"
 RULE = ("sessions of up to 12 lines from an alphabet of declarations, assignments, expressions over earlier globals, loops, self-contained "
@@ -78,6 +78,15 @@ def run(res, tier, rng, table_diffs=()):
             [fail_deep, "functie g() { [1.5, \"s\"] } g()", runaway, "functie g() { [2.5] } g()[0]"]]
     never_written = [["stel x = 1 / 0", "stel y = 5", "x", "y"], ["stel a = 2", "stel q = a / 0", "stel r = a / 0", "stel z = a + 40", "q", "r", "z"],
                      ["stel x = 1 / 0", "x", "stel x = 3", "x"], ["stel x = 1 / 0", "stel y = 2 / 0", "stel z = 9", "x", "y", "z", "stel w = 8", "x"]]
+    inside = ["!ja; zolang a < 5 { a = a + 1; zz }", "zolang ja { stel q = 1; functie f() { zz } }", "functie f() { zolang ja { zz } }", "zolang zz { 1 }",
+              "zolang ja { als ja { zolang ja { zz } } }", "{ stel t = 1; zolang t < 3 { t = t + 1; stop; zz } }", "functie g(x) { antwoord zz }"]
+    after = ["stop", "volgende", "volgende; a = 100", "antwoord 1", "a", "zolang a < 3 { a = a + 1; stop }; a", "functie h() { antwoord 2 }; h()", "als ja { stop }"]
+    compile_fail = []
+    for i, bad in enumerate(inside):
+        for j, aft in enumerate(after):
+            compile_fail.append(["stel a = 1", bad, aft, "a", after[(i + j) % len(after)], "a + 1"])
+    sessions += compile_fail
+    reqs += ["session 100000 " + " ".join(hx(l) for l in s) for s in compile_fail]
     sessions += never_written
     reqs += ["session 100000 " + " ".join(hx(l) for l in s) for s in never_written]
     sessions += deep
